@@ -114,7 +114,7 @@ func rulePadShape(p *Program, r *Result, parts string) {
 			if call, ok := iff.Cond.(*ssa.Call); ok {
 				if f := call.Common().StaticCallee(); f != nil && f.Name() == "Has" && len(call.Common().Args) == 2 {
 					flagC, okc := constInt(call.Common().Args[1])
-					if okc && flagC == unenc && headerFieldAddr(call.Common().Args[0], pkt, "Flags") && hasIsMaskTest(f) {
+					if okc && flagC == unenc && headerFieldAddr(flagsOperand(call.Common().Args[0]), pkt, "Flags") && hasIsMaskTest(f) {
 						tb := entry.Succs[0]
 						if ret, ok := tb.Instrs[len(tb.Instrs)-1].(*ssa.Return); ok && len(tb.Instrs) == 1 && isNilConst(ret.Results[0]) {
 							aOK = true
@@ -225,7 +225,7 @@ func rulePadShape(p *Program, r *Result, parts string) {
 			sum = seq[len(seq)-1].Value()
 			// 1: session id
 			if call, idx, ok := extractOf(ops[0]); !ok || idx != 0 || call.Common().StaticCallee() == nil || call.Common().StaticCallee().Name() != "MarshalBinary" ||
-				!headerFieldAddr(call.Common().Args[0], pkt, "SessionID") || !sessionIDIsBE32(call.Common().StaticCallee()) {
+				!headerFieldAddr(call.Common().Args[0], pkt, "SessionID") || !sessionIDIsBE32(p.localInlined(call.Common().StaticCallee())) {
 				bOK, why = false, "1st hash input is not the big-endian session id of this header"
 			}
 			// 2: key
@@ -492,8 +492,23 @@ func hasIsMaskTest(f *ssa.Function) bool {
 	if z, ok := constInt(ne.Y); !ok || z != 0 {
 		return false
 	}
+	if and.Y != ssa.Value(f.Params[1]) {
+		return false
+	}
+	if and.X == ssa.Value(f.Params[0]) {
+		return true // value receiver: func (b T) Has(f T) bool { return b&f != 0 }
+	}
 	u, ok := and.X.(*ssa.UnOp)
-	return ok && u.Op == token.MUL && u.X == ssa.Value(f.Params[0]) && and.Y == ssa.Value(f.Params[1])
+	return ok && u.Op == token.MUL && u.X == ssa.Value(f.Params[0])
+}
+
+// flagsOperand: the first argument of a Has call is the address of the flags field (pointer receiver) or its loaded
+// value (value receiver); returns the address.
+func flagsOperand(v ssa.Value) ssa.Value {
+	if u, ok := v.(*ssa.UnOp); ok && u.Op == token.MUL {
+		return u.X
+	}
+	return v
 }
 
 // sessionIDIsBE32: the method returns a 4-byte buffer filled by BigEndian.PutUint32(buf, uint32(*s)).
